@@ -32,7 +32,20 @@ type c15Script struct {
 	Content string `json:"content,omitempty"`
 	Status  int    `json:"status,omitempty"`
 	Cut     int    `json:"cut,omitempty"`
+	// listID is the list whose pending file a rename-fail source removes.
+	listID string
 }
+
+// c15FollowUpAfterFailedURLChange: a failed set_url that changes the URL of an
+// enabled list restores URL, name, enabled flag and rule count but leaves the
+// checksum zeroed by unload() (reported; draft fix in
+// notes/fix-drafts/C15-setprops-checksum.patch).  While this is false the
+// checksum of such a call is not compared with its value before the call
+// (class failed-url-change-checksum-forgotten records it; the model predicts
+// the zero) and the refreshes that would follow in the history are left out
+// until the list is unloaded or re-pointed; set it to true once /repo restores
+// the checksum.
+const c15FollowUpAfterFailedURLChange = false
 
 // delivered returns what the reader hands to the parser: ok=false if no
 // reader is obtained at all; otherwise data and whether it ends in an error.
@@ -68,7 +81,7 @@ type c15List struct {
 	Name    string `json:"name"`
 }
 
-// c15Step is one refresh (Set == nil) or one set_url call that keeps the URL.
+// c15Step is one refresh (Set == nil), one set_url call, or one engine rebuild.
 type c15Step struct {
 	Block   bool                 `json:"block"`
 	Allow   bool                 `json:"allow"`
@@ -76,12 +89,18 @@ type c15Step struct {
 	Due     []int64              `json:"due"`
 	Scripts map[string]c15Script `json:"scripts"`
 	Set     *c15Set              `json:"set,omitempty"`
+	Rebuild bool                 `json:"rebuild,omitempty"`
 }
 
 type c15Set struct {
 	ID      int64  `json:"id"`
 	Name    string `json:"name"`
 	Enabled bool   `json:"enabled"`
+	// URL: 0 keeps the URL; otherwise the number of the source the list is
+	// pointed to (list IDs number the lists' first sources).  Dup: point it to
+	// the source list Dup uses now.
+	URL int64 `json:"url,omitempty"`
+	Dup int64 `json:"dup,omitempty"`
 }
 
 type c15Hist struct {
@@ -125,7 +144,7 @@ func (s *c15Server) serve(w http.ResponseWriter, r *http.Request) {
 		// The pending file of this list exists by now (it is created before
 		// the request is sent); take it away, so that replacing the list's
 		// file with it fails.  TMPDIR is private to this test process.
-		m, _ := filepath.Glob(filepath.Join(tmpDir, "."+id+".txt*"))
+		m, _ := filepath.Glob(filepath.Join(tmpDir, "."+sc.listID+".txt*"))
 		for _, p := range m {
 			_ = os.Remove(p)
 		}
@@ -294,6 +313,16 @@ func c15GenHist(r *vfRand) (h c15Hist) {
 		if r.Chance(1, 4) {
 			l := vfPick(r, h.Lists)
 			st.Set = &c15Set{ID: l.ID, Enabled: r.Chance(1, 2), Name: vfPick(r, []string{l.Name, l.Name, "renamed", ""})}
+			switch r.Intn(8) {
+			case 0, 1:
+				// To another source (or back to the first one).
+				st.Set.URL = l.ID + 100*r.Range(0, 2)
+				st.Set.Enabled = !r.Chance(1, 4)
+			case 2:
+				st.Set.Dup = vfPick(r, h.Lists).ID
+			}
+		} else if r.Chance(1, 10) {
+			st.Rebuild = true
 		}
 		h.Steps = append(h.Steps, st)
 	}
@@ -308,6 +337,7 @@ type c15Obs struct {
 	sum     uint32
 	name    string
 	enabled bool
+	url     int64
 }
 
 // c15Rules returns the probe names for which the stored text has a rule.
@@ -331,11 +361,43 @@ func c15Run(t *testing.T, out *vfOut, srv *c15Server, h c15Hist, forced ...strin
 	refusedURL := "http://" + closed.Addr().String()
 	_ = closed.Close()
 
-	urlOf := func(l c15List) string {
-		if l.Local {
-			return filepath.Join(srcDir, fmt.Sprintf("list%d.txt", l.ID))
+	// urlFor is the URL that names source number k for list l when that source
+	// behaves as kind says (a refused connection and a path outside the safe
+	// patterns need a URL of their own).
+	urlFor := func(l c15List, k int64, kind string) string {
+		switch {
+		case l.Local && kind == "file-unsafe":
+			return filepath.Join(dir, fmt.Sprintf("unsafe%d.list", k))
+		case l.Local:
+			return filepath.Join(srcDir, fmt.Sprintf("list%d.txt", k))
+		case kind == "refused":
+			return refusedURL + "/l/x" + strconv.FormatInt(k, 10)
 		}
-		return srv.url + "/l/" + strconv.FormatInt(l.ID, 10)
+		return srv.url + "/l/" + strconv.FormatInt(k, 10)
+	}
+	// arrange makes source number k of list l behave as sc says.
+	arrange := func(l c15List, k int64, sc c15Script) {
+		p := filepath.Join(srcDir, fmt.Sprintf("list%d.txt", k))
+		_ = os.RemoveAll(p)
+		switch sc.Kind {
+		case "refused":
+		case "file-ok":
+			_ = os.WriteFile(p, []byte(sc.Content), 0o644)
+		case "file-dir":
+			_ = os.Mkdir(p, 0o755)
+		case "file-unsafe":
+			_ = os.WriteFile(urlFor(l, k, sc.Kind), []byte(sc.Content), 0o644)
+		default:
+			sc.listID = strconv.FormatInt(l.ID, 10)
+			srv.mu.Lock()
+			srv.scripts[strconv.FormatInt(k, 10)] = sc
+			srv.mu.Unlock()
+		}
+	}
+	// key is the number of the source each list's URL names.
+	key := map[int64]int64{}
+	for _, l := range h.Lists {
+		key[l.ID] = l.ID
 	}
 	conf := &Config{
 		DataDir:                    dir,
@@ -345,7 +407,7 @@ func c15Run(t *testing.T, out *vfOut, srv *c15Server, h c15Hist, forced ...strin
 		SafeFSPatterns:             []string{filepath.Join(srcDir, "*.txt")},
 	}
 	for _, l := range h.Lists {
-		f := FilterYAML{Enabled: l.Enabled, URL: urlOf(l), Name: l.Name, Filter: Filter{ID: rulelist.URLFilterID(l.ID)}, white: l.Allow}
+		f := FilterYAML{Enabled: l.Enabled, URL: urlFor(l, l.ID, ""), Name: l.Name, Filter: Filter{ID: rulelist.URLFilterID(l.ID)}, white: l.Allow}
 		if l.Allow {
 			conf.WhitelistFilters = append(conf.WhitelistFilters, f)
 		} else {
@@ -398,11 +460,18 @@ func c15Run(t *testing.T, out *vfOut, srv *c15Server, h c15Hist, forced ...strin
 		}
 		return vs
 	}
+	// cands are the URLs a list can have in the current step, by source number.
+	cands := map[int64]map[string]int64{}
 	observe := func() map[int64]c15Obs {
 		m := map[int64]c15Obs{}
 		for _, l := range h.Lists {
 			f := find(l.ID)
-			o := c15Obs{count: f.RulesCount, sum: f.checksum, name: f.Name, enabled: f.Enabled}
+			o := c15Obs{count: f.RulesCount, sum: f.checksum, name: f.Name, enabled: f.Enabled, url: 999}
+			if k, ok := cands[l.ID][f.URL]; ok {
+				o.url = k
+			} else if cands[l.ID] == nil {
+				o.url = key[l.ID]
+			}
 			b, rerr := os.ReadFile(f.Path(dir))
 			if rerr == nil {
 				o.file, o.exists = b, true
@@ -437,7 +506,7 @@ func c15Run(t *testing.T, out *vfOut, srv *c15Server, h c15Hist, forced ...strin
 	rewritten := func(b, a c15Obs) bool { return b.exists != a.exists || b.ino != a.ino }
 	same := func(b, a c15Obs) bool {
 		return b.exists == a.exists && bytes.Equal(b.file, a.file) && b.ino == a.ino && b.count == a.count &&
-			b.sum == a.sum && b.name == a.name && b.enabled == a.enabled
+			b.sum == a.sum && b.name == a.name && b.enabled == a.enabled && b.url == a.url
 	}
 	parseOf := func(data []byte) (res *rulelist.ParseResult, norm []byte, perr error) {
 		var sink bytes.Buffer
@@ -449,7 +518,14 @@ func c15Run(t *testing.T, out *vfOut, srv *c15Server, h c15Hist, forced ...strin
 	var steps []string
 	nontrivial := false
 	seen := map[int64][]uint32{} // checksums stored so far, per list
+	var failedSet *c15FailedSet  // the set_url call of the previous step failed
+	forgot := map[int64]bool{}   // see c15FollowUpAfterFailedURLChange
 	for _, st := range h.Steps {
+		if st.Set == nil && !st.Rebuild && len(forgot) > 0 {
+			// See c15FollowUpAfterFailedURLChange.
+			classes["refresh-left-out-after-forgotten-checksum"] = true
+			continue
+		}
 		// Arrange the sources.
 		srv.mu.Lock()
 		for k := range srv.scripts {
@@ -473,52 +549,84 @@ func c15Run(t *testing.T, out *vfOut, srv *c15Server, h c15Hist, forced ...strin
 			if st.Set == nil && f.Enabled && (st.Force || due[l.ID]) && ((l.Allow && st.Allow) || (!l.Allow && st.Block)) {
 				attempted[l.ID] = true
 			}
-			p := filepath.Join(srcDir, fmt.Sprintf("list%d.txt", l.ID))
-			_ = os.RemoveAll(p)
-			f.URL = urlOf(l)
-			switch sc.Kind {
-			case "refused":
-				f.URL = refusedURL + "/l/x" + strconv.FormatInt(l.ID, 10)
-			case "file-ok":
-				_ = os.WriteFile(p, []byte(sc.Content), 0o644)
-			case "file-dir":
-				_ = os.Mkdir(p, 0o755)
-			case "file-unsafe":
-				f.URL = filepath.Join(dir, fmt.Sprintf("unsafe%d.list", l.ID))
-				_ = os.WriteFile(f.URL, []byte(sc.Content), 0o644)
-			default:
-				srv.mu.Lock()
-				srv.scripts[strconv.FormatInt(l.ID, 10)] = sc
-				srv.mu.Unlock()
-			}
+			f.URL = urlFor(l, key[l.ID], sc.Kind)
+			cands[l.ID] = map[string]int64{f.URL: key[l.ID]}
+			arrange(l, key[l.ID], sc)
 		}
 		inStepBefore := fmt.Sprint(expected(prev)) == fmt.Sprint(prevV)
 
+		if st.Rebuild {
+			// Any other settings change, or a restart: the engine is rebuilt
+			// from the files of the enabled lists.
+			d.EnableFilters(false)
+			cur, curV := observe(), verdicts()
+			classes["rebuild"] = true
+			for _, l := range h.Lists {
+				if !same(prev[l.ID], cur[l.ID]) {
+					bad("C15/rebuild-changed-list", fmt.Sprintf("an engine rebuild changed list %d: %+v -> %+v", l.ID, prev[l.ID], cur[l.ID]))
+				}
+			}
+			if fmt.Sprint(expected(cur)) != fmt.Sprint(curV) {
+				bad("C15/rebuild-not-from-files", fmt.Sprintf("after an engine rebuild the enabled lists' files give verdicts %v but %v are in force", expected(cur), curV))
+			}
+			if !inStepBefore {
+				classes["rebuild-catches-up-with-files"] = true
+			}
+			if failedSet != nil {
+				classes["failed-set-then-rebuild"] = true
+				if fmt.Sprint(failedSet.want) != fmt.Sprint(curV) {
+					bad("C15/failed-set-removed-file", fmt.Sprintf("set_url on list %d failed; the files stored before it give verdicts %v, but after the next engine rebuild %v are in force", failedSet.id, failedSet.want, curV))
+				}
+			}
+			failedSet = nil
+			var obs, vs []string
+			for _, l := range h.Lists {
+				obs = append(obs, c15ObsTerm(l.ID, prev[l.ID], cur[l.ID]))
+			}
+			for _, v := range curV {
+				vs = append(vs, vfN(uint64(v)))
+			}
+			steps = append(steps, vfApp("RRebuild", vfList("lobs", obs), vfList("N", vs)))
+			prev, prevV = cur, curV
+			continue
+		}
 		if st.Set != nil {
-			// set_url with the URL kept: filterSetProperties, then what
-			// handleFilteringSetURL does with the result (engine rebuilt
-			// synchronously here).
+			// set_url: filterSetProperties, then what handleFilteringSetURL
+			// does with the result (engine rebuilt synchronously here).
 			var target c15List
 			for _, l := range h.Lists {
 				if l.ID == st.Set.ID {
 					target = l
 				}
 			}
-			setURL := srv.url + "/l/none"
+			sc := st.Scripts[strconv.FormatInt(st.Set.ID, 10)]
+			setURL, newURL := srv.url+"/l/none", srv.url+"/l/none"
+			oldKey, newKey := int64(777), int64(777)
+			dup := false
 			if target.ID != 0 {
-				setURL = find(target.ID).URL
+				setURL, oldKey = find(target.ID).URL, key[target.ID]
+				newURL, newKey = setURL, oldKey
+				if st.Set.Dup != 0 && st.Set.Dup != target.ID {
+					// The URL another list has now.
+					newURL, newKey, dup = find(st.Set.Dup).URL, key[st.Set.Dup], true
+				} else if st.Set.URL != 0 && st.Set.URL != oldKey {
+					newKey = st.Set.URL
+					newURL = urlFor(target, newKey, sc.Kind)
+					arrange(target, newKey, sc)
+					cands[target.ID][newURL] = newKey
+				}
 			} else {
 				// No such list: the call is refused and nothing changes.
 				target.ID = st.Set.ID
 				classes["set-unknown-list"] = true
 			}
-			sc := st.Scripts[strconv.FormatInt(target.ID, 10)]
+			urlChange := newKey != oldKey
 			var restart bool
 			var serr error
 			var pan any
 			func() {
 				defer func() { pan = recover() }()
-				restart, serr = d.filterSetProperties(setURL, FilterYAML{Enabled: st.Set.Enabled, Name: st.Set.Name, URL: setURL}, target.Allow)
+				restart, serr = d.filterSetProperties(setURL, FilterYAML{Enabled: st.Set.Enabled, Name: st.Set.Name, URL: newURL}, target.Allow)
 				if serr == nil && restart {
 					d.EnableFilters(false)
 				}
@@ -538,14 +646,48 @@ func c15Run(t *testing.T, out *vfOut, srv *c15Server, h c15Hist, forced ...strin
 			okReader, data, readErr := sc.delivered()
 			srcRes, srcNorm, srcErr := parseOf([]byte(data))
 			srcFails := !okReader || readErr || srcErr != nil || sc.Kind == "rename-fail"
+			failedSet = nil
 			switch {
 			case serr != nil:
 				classes["set-failed"] = true
-				if !same(b, a) || fmt.Sprint(prevV) != fmt.Sprint(curV) {
+				// The stored file first: whatever else the failed call did, the
+				// file the last successful refresh stored must be there, the
+				// same file with the same bytes.
+				if b.exists && (!a.exists || a.ino != b.ino || !bytes.Equal(b.file, a.file)) {
+					bad("C15/failed-set-removed-file", fmt.Sprintf("set_url on list %d (enabled %v -> %v, source %d -> %d %s) failed (%v) but the stored file %q (inode %d) is now %q (exists %v, inode %d)",
+						target.ID, b.enabled, st.Set.Enabled, oldKey, newKey, sc.Kind, serr, b.file, b.ino, a.file, a.exists, a.ino))
+				}
+				cmpB := b
+				if urlChange && !dup && !c15FollowUpAfterFailedURLChange && a.sum != b.sum && a.sum == 0 {
+					// See c15FollowUpAfterFailedURLChange.
+					classes["failed-url-change-checksum-forgotten"] = true
+					cmpB.sum = a.sum
+					forgot[target.ID] = true
+				}
+				if !same(cmpB, a) || fmt.Sprint(prevV) != fmt.Sprint(curV) {
 					bad("C15/failed-set-changed-state", fmt.Sprintf("set_url on list %d failed (%v) but the list or the verdicts changed: %+v -> %+v, %v -> %v", target.ID, serr, b, a, prevV, curV))
 				}
 				if b.exists {
 					nontrivial = true
+				}
+				switch {
+				case dup && urlChange:
+					classes["set-url-duplicate"] = true
+				case urlChange:
+					classes["set-url-change-failed"] = true
+					if b.exists && b.enabled {
+						classes["set-url-change-failed-with-file"] = true
+						classes["set-url-change-failed-"+c15FailKind(sc)] = true
+					}
+				case b.exists && !b.enabled && st.Set.Enabled:
+					classes["set-reenable-failed-with-file"] = true
+					classes["set-reenable-failed-"+c15FailKind(sc)] = true
+				}
+				if urlChange && !srcFails && !dup {
+					bad("C15/set-failed-without-cause", fmt.Sprintf("set_url on list %d to source %d failed (%v) although the source delivers %q", target.ID, newKey, serr, data))
+				}
+				if inStepBefore {
+					failedSet = &c15FailedSet{id: target.ID, want: expected(prev)}
 				}
 			case !st.Set.Enabled:
 				classes["set-disable"] = true
@@ -553,18 +695,42 @@ func c15Run(t *testing.T, out *vfOut, srv *c15Server, h c15Hist, forced ...strin
 					classes["set-disable-enabled-list"] = true
 					nontrivial = true
 				}
-				if a.enabled || a.count != 0 || rewritten(b, a) || !bytes.Equal(b.file, a.file) {
-					bad("C15/disable-wrong", fmt.Sprintf("list %d disabled: enabled %v, count %d, file %q -> %q", target.ID, a.enabled, a.count, b.file, a.file))
+				if urlChange {
+					classes["set-url-change-disabled"] = true
+				}
+				if a.enabled || a.count != 0 || rewritten(b, a) || !bytes.Equal(b.file, a.file) || a.url != newKey {
+					bad("C15/disable-wrong", fmt.Sprintf("list %d disabled: enabled %v, count %d, file %q -> %q, source %d (want %d)", target.ID, a.enabled, a.count, b.file, a.file, a.url, newKey))
+				}
+				delete(forgot, target.ID)
+			case urlChange:
+				// An enabled list now reads another source.
+				nontrivial = true
+				classes["set-url-change"] = true
+				if b.enabled {
+					classes["set-url-change-enabled-list"] = true
+				}
+				delete(forgot, target.ID)
+				if srcFails {
+					bad("C15/enable-ignored-failure", fmt.Sprintf("list %d pointed to source %d without an error although that source %s fails", target.ID, newKey, sc.Kind))
+				} else {
+					wantFile := srcRes.Checksum != 0
+					if !a.enabled || a.url != newKey || a.count != srcRes.RulesCount || a.sum != srcRes.Checksum || a.exists != wantFile || (wantFile && !bytes.Equal(a.file, srcNorm)) {
+						bad("C15/url-change-wrong", fmt.Sprintf("list %d pointed to source %d delivering %q (normal form %q, %d rules, checksum %08x): %+v", target.ID, newKey, data, srcNorm, srcRes.RulesCount, srcRes.Checksum, a))
+					}
+					if srcRes.Checksum == 0 && b.exists {
+						classes["set-url-change-no-rules"] = true
+					}
 				}
 			case b.enabled:
 				classes["set-name-only"] = true
-				if !a.enabled || a.count != b.count || a.sum != b.sum || rewritten(b, a) || !bytes.Equal(b.file, a.file) {
+				if !a.enabled || a.count != b.count || a.sum != b.sum || rewritten(b, a) || !bytes.Equal(b.file, a.file) || a.url != b.url {
 					bad("C15/rename-changed-list", fmt.Sprintf("list %d only renamed but changed: %+v -> %+v", target.ID, b, a))
 				}
 			default:
 				// A disabled list has been enabled.
 				nontrivial = true
 				classes["set-enable"] = true
+				delete(forgot, target.ID)
 				if srcFails {
 					bad("C15/enable-ignored-failure", fmt.Sprintf("list %d enabled without an error although its source %s fails", target.ID, sc.Kind))
 				} else {
@@ -583,8 +749,8 @@ func c15Run(t *testing.T, out *vfOut, srv *c15Server, h c15Hist, forced ...strin
 				bad("C15/set-name-wrong", fmt.Sprintf("list %d: name %q after setting %q", target.ID, a.name, st.Set.Name))
 			}
 			if serr == nil && inStepBefore && fmt.Sprint(expected(cur)) != fmt.Sprint(curV) {
-				bad("C15/reenabled-list-stale-file", fmt.Sprintf("after set_url(list %d, enabled=%v) with source %s %q the enabled lists' files give verdicts %v but %v are in force (list: count %d, checksum %08x, file %q)",
-					target.ID, st.Set.Enabled, sc.Kind, data, expected(cur), curV, a.count, a.sum, a.file))
+				bad("C15/reenabled-list-stale-file", fmt.Sprintf("after set_url(list %d, enabled=%v, source %d -> %d) with source %s %q the enabled lists' files give verdicts %v but %v are in force (list: count %d, checksum %08x, file %q)",
+					target.ID, st.Set.Enabled, oldKey, newKey, sc.Kind, data, expected(cur), curV, a.count, a.sum, a.file))
 			}
 			for i, v := range curV {
 				if v != 0 {
@@ -592,6 +758,9 @@ func c15Run(t *testing.T, out *vfOut, srv *c15Server, h c15Hist, forced ...strin
 				}
 				if st.Set.Enabled && !b.enabled && serr == nil && v != prevV[i] {
 					classes["set-enable-changes-verdict"] = true
+				}
+				if st.Set.Enabled && b.enabled && urlChange && serr == nil && v != prevV[i] {
+					classes["set-url-change-changes-verdict"] = true
 				}
 				if !st.Set.Enabled && b.enabled && v != prevV[i] {
 					classes["set-disable-changes-verdict"] = true
@@ -601,15 +770,17 @@ func c15Run(t *testing.T, out *vfOut, srv *c15Server, h c15Hist, forced ...strin
 			var obs, vs []string
 			for _, l := range h.Lists {
 				obs = append(obs, c15ObsTerm(l.ID, prev[l.ID], cur[l.ID]))
+				key[l.ID] = cur[l.ID].url
 			}
 			for _, v := range curV {
 				vs = append(vs, vfN(uint64(v)))
 			}
-			steps = append(steps, vfApp("RSet", vfBool(target.Allow), vfN(uint64(target.ID)), vfBytes(st.Set.Name), vfBool(st.Set.Enabled),
+			steps = append(steps, vfApp("RSet", vfBool(target.Allow), vfN(uint64(oldKey)), vfBytes(st.Set.Name), vfN(uint64(newKey)), vfBool(st.Set.Enabled),
 				sc.outcome(), vfBool(restart), vfBool(serr != nil), vfList("lobs", obs), vfList("N", vs)))
 			prev, prevV = cur, curV
 			continue
 		}
+		failedSet = nil
 
 		var pan any
 		var netErr bool
@@ -812,8 +983,26 @@ func c15Run(t *testing.T, out *vfOut, srv *c15Server, h c15Hist, forced ...strin
 	})
 }
 
+// c15FailedSet is what a failed set_url call leaves to be looked at after the
+// next engine rebuild: the verdicts the files stored before the call give.
+type c15FailedSet struct {
+	id   int64
+	want []int
+}
+
+// c15FailKind names the way a source fails, for the class counters.
+func c15FailKind(sc c15Script) string {
+	switch {
+	case sc.Kind == "ok" || sc.Kind == "file-ok":
+		return "bad-content"
+	case sc.Kind == "status" && sc.Status >= 500:
+		return "status-5xx"
+	}
+	return sc.Kind
+}
+
 func c15ObsTerm(id int64, b, a c15Obs) string {
-	return vfApp("LO", vfN(uint64(id)), vfOpt("list N", a.exists, vfBytes(string(a.file))), vfN(uint64(a.count)), vfN(uint64(a.sum)),
+	return vfApp("LO", vfN(uint64(id)), vfN(uint64(a.url)), vfOpt("list N", a.exists, vfBytes(string(a.file))), vfN(uint64(a.count)), vfN(uint64(a.sum)),
 		vfBytes(a.name), vfBool(a.enabled), vfBool(b.exists != a.exists || b.ino != a.ino))
 }
 
@@ -928,6 +1117,49 @@ func TestVerifC15(t *testing.T) {
 		step(blk(ok("# nothing here any more\n"), ok(good2+a2))),
 		step(blk(ok(b1), ok(good2+a2))),
 	}})
+	// A set_url-driven refresh that fails must leave the stored file alone:
+	// the URL of an enabled list is changed to a source that fails (status 500,
+	// body cut short under a longer Content-Length, an HTML page), for a block
+	// and an allow list; the engine is rebuilt right afterwards, then the list
+	// is pointed to a source that works, to a URL another list has, and back.
+	setTo := func(id int64, en bool, url int64, sc c15Script) c15Step {
+		return c15Step{Scripts: one(id, sc), Set: &c15Set{ID: id, Enabled: en, Name: fmt.Sprintf("list %d", id), URL: url}}
+	}
+	rebuild := c15Step{Rebuild: true}
+	three := []c15List{{ID: 1, Enabled: true, Name: "list 1"}, {ID: 2, Enabled: true, Name: "list 2"}, {ID: 11, Allow: true, Enabled: true, Name: "list 11"}}
+	first := step(map[string]c15Script{"1": ok(b1), "2": ok(good2), "11": ok(a2)})
+	failing := []c15Script{
+		{Kind: "status", Status: 500},
+		{Kind: "cut", Content: good2 + b1, Cut: len(good2)},
+		ok("<!DOCTYPE html>\n<html><body>sign in</body></html>\n"),
+	}
+	for _, id := range []int64{1, 11} {
+		for _, sc := range failing {
+			steps := []c15Step{first, setTo(id, true, id+100, sc), rebuild}
+			if c15FollowUpAfterFailedURLChange {
+				steps = append(steps, step(map[string]c15Script{"1": ok(b1), "2": ok(good2), "11": ok(a2)}),
+					setTo(id, true, id+100, sc), step(map[string]c15Script{"1": ok("# gone\n"), "2": ok(good2), "11": ok("# gone\n")}))
+			}
+			steps = append(steps,
+				setTo(id, true, id+100, ok(good2+a1)), rebuild,
+				c15Step{Scripts: one(id, ok(a1)), Set: &c15Set{ID: id, Enabled: true, Name: "dup", Dup: 2}},
+				setTo(id, false, id+200, ok(a1)), setTo(id, true, id+200, sc), rebuild, setTo(id, true, id+200, ok(a1)),
+				setTo(id, true, id, ok("# no rules\n")), rebuild,
+				step(map[string]c15Script{"1": ok(a1), "2": ok(good2), "11": ok(a1)}),
+			)
+			c15Run(t, out, srv, c15Hist{Lists: three, Steps: steps})
+		}
+	}
+	// ... and so must the re-enabling of a disabled list whose source fails in
+	// these ways, again with an engine rebuild after each failed call.
+	for _, id := range []int64{1, 11} {
+		steps := []c15Step{first, setTo(id, false, 0, ok(b1))}
+		for _, sc := range failing {
+			steps = append(steps, setTo(id, true, 0, sc), rebuild)
+		}
+		steps = append(steps, setTo(id, true, 0, ok(b1)), rebuild)
+		c15Run(t, out, srv, c15Hist{Lists: three, Steps: steps})
+	}
 
 	r := vfNewRand(out.Seed)
 	n := out.Scale(250, 4000)
